@@ -8,7 +8,7 @@ import gens_markets
 import gens_orders
 import gens_staking
 
-KINDS = ["balance", "candidates", "pools", "route", "estimate", "orders", "frozen", "export"]
+KINDS = ["balance", "candidates", "pools", "route", "estimate", "orders", "frozen", "export", "api"]
 PHASES = ["begin", "deliver", "end", "commit", "between"]
 
 
